@@ -36,16 +36,84 @@ CHECKS = {
         "thorough": [],
         "assumptions": ["at most 6 consumer offsets for the pure cleaner, <= 2 consumers and <= 4 values for cleanupLogic"],
     },
+    "C05": {
+        "explanation": "The real WaitCond under every interleaving of waiter, its context watcher, a signaller that sets the flag under the lock and broadcasts, and a canceller (T=20); cancel-only wake-up; argument validation. Failed Get consumes nothing is covered by the Get step from arbitrary states.",
+        "quick": [seq("Harness_C05_waitcond_args"), sched("Harness_C05_waitcond_cancel_only", 16), sched("Harness_C05_waitcond_wake", 20), seq("Harness_C01_get_step")],
+        "thorough": [],
+        "assumptions": ["sync.Cond / sync.Mutex / context models", "at most one signaller and one canceller"],
+    },
+    "C06": {
+        "explanation": "ChanPubSub: one sender || one standing subscriber that receives and Waits, under every interleaving (T=30); Send with no subscribers returns 0 without blocking.",
+        "quick": [seq("Harness_C06_send_no_subscribers"), sched("Harness_C06_pubsub_one", 30, timeout_ms=300000)],
+        "thorough": [],
+        "assumptions": ["one sender, one subscriber, one message; ordering across several senders/subscribers is outside"],
+    },
+    "C07": {
+        "explanation": "ChanPubSub: sanityCheckSubscribersDelta for all 32-bit counters/deltas; thorough: sender || a subscriber that unsubscribes at an arbitrary point without receiving (TryRLock spin bounded to 2 failures, T=34).",
+        "quick": [seq("Harness_C07_sanity_delta"), seq("Harness_C06_send_no_subscribers")],
+        "thorough": [sched("Harness_C07_unsub_mid_send", 34, timeout_ms=600000)],
+        "assumptions": ["spin bound: at most 2 failed TryRLock attempts (unfair schedules that spin longer are excluded)"],
+    },
     "C08": {
         "explanation": "ChanCaster.Add for every valid packed word and every 64-bit delta (idle), negative deltas >= -3 during a send, every poisoned word; Send || 2 receivers under every interleaving (symbolic scheduler, T=24).",
         "quick": [seq("Harness_C08_add_idle"), seq("Harness_C08_add_sending"), seq("Harness_C08_poisoned"), sched("Harness_C08_caster_race", 24)],
         "thorough": [],
         "assumptions": ["negative Add during a send is unrolled for |delta| <= 3"],
     },
+    "C09": {
+        "explanation": "Exclusive: a work function that parks forever on key A does not delay a blocking Call on key B (every interleaving, T=26).",
+        "quick": [sched("Harness_C09_excl_other_key", 26, timeout_ms=300000)],
+        "thorough": [],
+        "assumptions": ["same-key non-overlap under full interleaving of two callers is outside the encoder's reach (measured blow-up), see DESIGN.md"],
+    },
+    "C10": {
+        "explanation": "Exclusive: a single call whose work function never resolves yields errResolveNotCalled, and no per-key state remains at quiescence (every interleaving of caller and runner, T=22).",
+        "quick": [sched("Harness_C10_resolve_not_called", 22)],
+        "thorough": [],
+        "assumptions": ["coalescing of several callers is outside the encoder's reach (measured blow-up), see DESIGN.md"],
+    },
+    "C12": {
+        "explanation": "Closed-state calls on Buffer, consumer and Channel from arbitrary valid states (sequential); goroutine-leak / termination harnesses for Channel, WaitCond and CombineContext under every interleaving.",
+        "quick": [seq("Harness_C12_buffer_closed_calls"), seq("Harness_C12_consumer_closed_calls"), seq("Harness_C12_channel_closed_calls"),
+                  sched("Harness_C12_leak_channel", 16), sched("Harness_C12_leak_waitcond", 12), sched("Harness_C12_leak_combine", 10)],
+        "thorough": [],
+        "assumptions": ["whole-program leak freedom is argued by composition, not checked"],
+    },
     "C13": {
         "explanation": "Channel.Get/Commit/Rollback/Buffer steps from an arbitrary valid state (pending buffer <= 4, rollback <= len, source holding <= 3 values), a 6-operation symbolic history against a reference model, TryRecv on a closed source.",
         "quick": [seq("Harness_C13_get_step"), seq("Harness_C13_commit_rollback_step"), seq("Harness_C13_closed_source")],
         "thorough": [seq("Harness_C13_history", timeout_ms=300000)],
         "assumptions": ["reflect.Value.TryRecv/Interface are contract stubs", "polling path (nothing available) is outside the sequential steps"],
+    },
+    "C14": {
+        "explanation": "Workers: one worker body run from an arbitrary valid state (queue <= 2, any count/target): FIFO exactly-once execution, reply delivery and exit accounting; one Call racing its worker under every interleaving (T=12).",
+        "quick": [seq("Harness_C14_worker_drain"), sched("Harness_C14_call_single_1", 12, unwind_fn="Call=1,worker=1", timeout_ms=300000)],
+        "thorough": [],
+        "assumptions": ["two or more concurrent callers under full interleaving are outside the encoder's reach"],
+    },
+    "C16": {
+        "explanation": "CombineContext (primary + 2 others, one possibly nil), ConflatedContext (2 inputs + explicit cancel), ChainAfterFunc with two racing cancellers, every subset cancelled before/after construction, every interleaving.",
+        "quick": [sched("Harness_C16_combine", 12), sched("Harness_C16_conflated", 20), sched("Harness_C16_chain_afterfunc", 12)],
+        "thorough": [],
+        "assumptions": ["context model: cancellation of a subtree is one atomic step; 'promptly' is quiescence"],
+    },
+    "C17": {
+        "explanation": "Worker: two Do callers whose done calls happen at arbitrary points with the real wait()/do() goroutines, every interleaving (T=26).",
+        "quick": [sched("Harness_C17_worker_two_holders", 26, timeout_ms=300000)],
+        "thorough": [],
+        "assumptions": ["two holders"],
+    },
+    "C18": {
+        "explanation": "ExponentialRetry's closure with symbolic outcomes per call (success / plain / fatal nested <= 3) and cancellation during a symbolic call, <= 4 calls; calcExponentialRetry for every rate and counter; waitDuration.",
+        "quick": [seq("Harness_C18_retry_loop", timeout_ms=300000), seq("Harness_C18_backoff"), seq("Harness_C18_wait_duration")],
+        "thorough": [],
+        "assumptions": ["rand.Int63n(n) returns any r with 0 <= r < n", "loop bounded to 4 calls; counter saturation covered by the backoff harness"],
+        "no_native": ["Harness_C18_retry_loop", "Harness_C18_backoff"],
+    },
+    "C20": {
+        "explanation": "LinearAttempt with count 2 (quick) and 3 (thorough): producer || receiver || optional canceller under every interleaving; ticker may tick at any time; the receiver is slower than the ticker at most twice (assumption).",
+        "quick": [seq("Harness_C20_linear_args"), sched("Harness_C20_linear_attempt_2", 26, timeout_ms=600000)],
+        "thorough": [sched("Harness_C20_linear_attempt_3", 32, timeout_ms=900000)],
+        "assumptions": ["fairness: at most 2 failed non-blocking sends in total", "time is an arbitrary non-decreasing clock"],
     },
 }
